@@ -201,8 +201,10 @@ fn processes(ctx: &mut Ctx) {
 }
 
 /// a U-ALLOC program through the real command line: `run` and `execute`, log on/off
-fn cli_case(ctx: &mut Ctx, stmts: &[E]) {
-    let r = refsem::run(stmts);
+fn cli_case(ctx: &mut Ctx, stmts: &[E]) { cli_case_with(ctx, stmts, refsem::Fuel::default()) }
+
+fn cli_case_with(ctx: &mut Ctx, stmts: &[E], fuel: refsem::Fuel) {
+    let r = refsem::run_with(stmts, fuel, &[]);
     if r.status == Status::Unspec { return }
     let exe = ctx.exe.clone();
     let text = show(stmts);
@@ -235,6 +237,19 @@ pub fn run(ctx: &mut Ctx) {
     ctx.stage("U-ALLOC");
     let stride = if ctx.quick() { 7 } else { 1 };
     for (i, p) in alloc_universe().into_iter().enumerate() { if ctx.take().is_some() { case(ctx, "U-ALLOC", &p); if i % stride == 0 { cli_case(ctx, &p) } } }
+    // long allocation histories (record 256, 257, 65 536, 65 537 ... must be there like record 1)
+    ctx.stage("long allocation histories through the command line");
+    for count in [255usize, 256, 257, 1000, 65_535, 65_537, 70_000] {
+        for kind in 0..3usize {
+            if ctx.take().is_none() { continue }
+            let alloc = match kind { 0 => array(int(1), var("i")), 1 => object(None, vec![field("a", var("i"))]), _ => array(int(2), object(None, vec![])) };
+            let p = vec![let_("i", int(0)), while_(binop("<", var("i"), int(count as i32)), block(vec![alloc, set("i", binop("+", var("i"), int(1)))])), print("made ~\\n", vec![var("i")])];
+            let mut fuel = refsem::Fuel::default();
+            fuel.steps = 5_000_000; fuel.cells = 1_000_000;
+            cli_case_with(ctx, &p, fuel);
+            ctx.count("programs", 1);
+        }
+    }
     let n = if ctx.quick() { 3 } else { 4 };
     let mut g = sem::grammar();
     g.prepare(n);
